@@ -26,7 +26,7 @@ def run(ctx):
             c = G.Catchment(name, flow)
             try:
                 c.delineate_area(int(rng.integers(0, nr * nc)), nval=nr * nc + 2)
-            except ValueError:
+            except Exception:
                 break
             if len(c.idxcells_area) == 0:
                 break
